@@ -2,6 +2,6 @@
 #![allow(dead_code, unused_imports, unused_variables)]
 extern crate alloc;
 #[cfg(kani)]
-mod validators;
+pub mod validators;
 #[cfg(kani)]
-mod wire;
+pub mod wire;
